@@ -62,15 +62,18 @@ def kinds(tc) -> List[Tuple[str, bytes, Dict[str, Any]]]:
 
 def scenarios(tier: str) -> List[Dict[str, Any]]:
     out = []
-    envs = [(False, 0, False), (False, 1, True)] if tier == "quick" else [(False, 0, False), (False, 1, True), (True, 0, True), (True, 1, False), (False, 2, False)]
+    envs = [(False, 0, False), (False, 1, True), (True, 0, False)] if tier == "quick" else [(False, 0, False), (False, 1, True), (True, 0, True), (True, 1, False), (False, 2, False)]
     nw_universe = ["S1", "S2", "L", "F", "A"]
     dead_universe = ["S1", "S2", "L"]
     for tc, grace, flip in envs:
+        lite = tier == "quick" and tc  # the timecode header layout in the quick tier: the two main kinds, at most one deviation of each sort
         for label, data, desc in kinds(tc):
-            full = tier == "thorough" or label in ("broadcast", "to-S1", "failed-typed", "log-44")
+            if lite and label not in ("broadcast", "to-S1"):
+                continue
+            full = (tier == "thorough" or label in ("broadcast", "to-S1", "failed-typed", "log-44")) and not lite
             for k in range(len(nw_universe) + 1):
                 for nw in itertools.combinations(nw_universe, k):
-                    if not full and k > 2:
+                    if not full and k > (1 if lite else 2):
                         continue
                     for kd in range(len(dead_universe) + 1):
                         for dead in itertools.combinations(dead_universe, kd):
@@ -83,6 +86,8 @@ def scenarios(tier: str) -> List[Dict[str, Any]]:
                                                 dead=list(dead), how=how, departure=False))
         # two frames of the publisher in one round, and a second delivery after the first one's failures (state left behind
         # by a delivery: deferred notices, removed modules, the recursion guard): lock step only
+        if lite:
+            continue
         b1 = fr(tc, T, b"first!!!", src_mod_id=IDS["P"])
         b2 = fr(tc, T, b"second!!", src_mod_id=IDS["P"], dest_mod_id=IDS["S1"])
         b3 = fr(tc, 44, b"\0" * P.LOG_SIZE, src_mod_id=IDS["P"])
